@@ -465,6 +465,10 @@ func (n *Nodis) ZUnion(keys []string, weights []float64, aggregate string) []*zs
 			}
 		}
 		for member, score := range items {
+			if math.IsNaN(score) {
+				// +inf and -inf (or 0 times inf) aggregate to 0, as in Redis; NaN is never stored
+				score = 0
+			}
 			v = append(v, &zset.Item{Member: member, Score: score})
 		}
 		return nil
@@ -545,6 +549,10 @@ func (n *Nodis) ZInter(keys []string, weights []float64, aggregate string) []*zs
 			}
 		}
 		for member, score := range items {
+			if math.IsNaN(score) {
+				// +inf and -inf (or 0 times inf) aggregate to 0, as in Redis; NaN is never stored
+				score = 0
+			}
 			v = append(v, &zset.Item{Member: member, Score: score})
 		}
 		return nil
